@@ -178,6 +178,7 @@ type dialer struct {
 	hc       *http1.HostClient
 	maxConns int
 	viol     []string
+	switched map[int]string // connection -> id of the exchange that switched its protocol
 	peers    sync.WaitGroup
 	// earlyCloses counts "closebefore" exchanges; past earlyCap (if set) the peer answers,
 	// so that a client retrying without end still comes to rest and can be judged
@@ -260,6 +261,11 @@ func (d *dialer) peer(c net.Conn, cid int) {
 			id = req.URL.Query().Get("id")
 			plan = req.URL.Query().Get("plan")
 		}
+		d.mu.Lock()
+		if by, ok := d.switched[cid]; ok {
+			d.viol = append(d.viol, fmt.Sprintf("request %s was written to connection %d, whose protocol the exchange of %s had switched (101)", id, cid, by))
+		}
+		d.mu.Unlock()
 		v, _ := d.recv.LoadOrStore(id, new(int32))
 		atomic.AddInt32(v.(*int32), 1)
 		d.log.add("peer-recv", cid, id, plan)
@@ -316,6 +322,19 @@ func (d *dialer) peer(c net.Conn, cid int) {
 			send(fmt.Sprintf("HTTP/1.1 200 OK\r\nConnection: close\r\nTransfer-Encoding: chunked\r\n\r\n%x\r\n%s\r\n0\r\n\r\n", len(body), body))
 			d.log.add("peer-close", cid, id, plan)
 			return
+		case "nolengthupgrade": // no length, the server advertises an upgrade it did not perform: the body still ends where the connection ends
+			send(fmt.Sprintf("HTTP/1.1 200 OK\r\nConnection: Upgrade\r\nUpgrade: h2c\r\n\r\n%s", body))
+			d.log.add("peer-close", cid, id, plan)
+			return
+		case "switch": // the server accepts the upgrade: from here on the connection speaks another protocol
+			spelling := []string{"Upgrade", "upgrade", "keep-alive, Upgrade", "Upgrade, keep-alive", "Upgrade\r\nConnection: keep-alive", "keep-alive\r\nConnection: upgrade"}[idSum(id)%6]
+			d.mu.Lock()
+			if d.switched == nil {
+				d.switched = map[int]string{}
+			}
+			d.switched[cid] = id
+			d.mu.Unlock()
+			send(fmt.Sprintf("HTTP/1.1 101 Switching Protocols\r\nConnection: %s\r\nUpgrade: demo\r\n\r\n", spelling))
 		case "okclose":
 			send(fmt.Sprintf("HTTP/1.1 200 OK\r\nConnection: close\r\nContent-Length: %d\r\n\r\n%s", len(body), body))
 			d.log.add("peer-close", cid, id, plan)
@@ -380,7 +399,7 @@ func installYield() {
 
 // ---- one run ----------------------------------------------------------------------
 
-var plans = []string{"ok", "ok", "ok", "ok", "bigok", "bigstall", "bigmidbody", "okclosespelled", "chunkcut", "chunkcuttrailer", "nolengthkeepalive", "okchunked", "okclose", "okclosechunked", "closebefore", "midheader", "midbody", "stall", "okthenclose"}
+var plans = []string{"ok", "ok", "ok", "ok", "bigok", "bigstall", "bigmidbody", "okclosespelled", "chunkcut", "chunkcuttrailer", "nolengthkeepalive", "nolengthupgrade", "okchunked", "okclose", "okclosechunked", "closebefore", "midheader", "midbody", "stall", "okthenclose"}
 
 type doRec struct {
 	reqTimeout       time.Duration
@@ -646,7 +665,7 @@ func oneRun(w *mon.W, c *mon.Case) {
 					fail("matching", "Do(%s, plan %s) succeeded with the response body %q, which answers another request", rec.id, rec.plan, rec.body)
 					return
 				}
-				if rec.plan != "ok" && rec.plan != "bigok" && rec.plan != "okchunked" && rec.plan != "okclose" && rec.plan != "okclosechunked" && rec.plan != "okclosespelled" && rec.plan != "okthenclose" && rec.plan != "chunkcut" && rec.plan != "chunkcuttrailer" && rec.plan != "nolengthkeepalive" {
+				if rec.plan != "ok" && rec.plan != "bigok" && rec.plan != "okchunked" && rec.plan != "okclose" && rec.plan != "okclosechunked" && rec.plan != "okclosespelled" && rec.plan != "okthenclose" && rec.plan != "chunkcut" && rec.plan != "chunkcuttrailer" && rec.plan != "nolengthkeepalive" && rec.plan != "nolengthupgrade" {
 					// (a chunked response cut in its last line or trailer, and a body that
 					// ends with the connection, may be handed out: their bytes are all there)
 					fail("matching", "Do(%s) succeeded although the peer's plan was %s", rec.id, rec.plan)
@@ -1097,6 +1116,61 @@ func work(w *mon.W) {
 		}
 		w.Shape(mon.Hash64("proxy-tunnel", cfg))
 	})
+	// switched: a 101 response hands the connection to another protocol, however the server
+	// spells the Connection field next to it ("keep-alive, Upgrade" is what several proxies
+	// send). No later HTTP request may be written to such a connection.
+	w.Cases("switched", uint64(w.Pick(30, 600)), func(c *mon.Case) {
+		r := c.R
+		log := &runLog{}
+		d := &dialer{log: log, r: r.Fork(), tcpLike: r.Bool()}
+		hc := http1.NewHostClient(&http1.ClientOptions{Dialer: d, MaxConns: 8, ReadTimeout: 300 * time.Millisecond, ResponseBodyStream: r.Bool()}).(*http1.HostClient)
+		hc.Addr = "peer:80"
+		n := 2 + r.Intn(5)
+		seq := make([]string, n)
+		for i := range seq {
+			seq[i] = r.Str("switch", "ok", "ok")
+		}
+		c.Detail = func() interface{} {
+			return map[string]interface{}{"family": "switched", "plans": seq}
+		}
+		var keep []*protocol.Response // (a released 101 response may be finalised; keep them so that nothing but the pool decides)
+		for i, plan := range seq {
+			req, resp := protocol.AcquireRequest(), &protocol.Response{}
+			id := fmt.Sprintf("s%d-%d", c.G, i)
+			req.SetRequestURI("http://peer/x")
+			req.Header.Set("X-Id", id)
+			req.Header.Set("X-Plan", plan)
+			if plan == "switch" {
+				req.Header.Set("Connection", "Upgrade")
+				req.Header.Set("Upgrade", "demo")
+			}
+			err := hc.Do(context.Background(), req, resp)
+			if err != nil {
+				c.Violate("switched-error", "plans %v: Do(%s, %s) failed: %v", seq, id, plan, err)
+			} else if plan == "ok" && !strings.HasPrefix(string(resp.Body()), "id="+id+";") {
+				c.Violate("matching", "plans %v: Do(%s) returned the body %q", seq, id, resp.Body())
+			} else if plan == "switch" && resp.StatusCode() != 101 {
+				c.Violate("matching", "plans %v: Do(%s) returned status %d for a 101", seq, id, resp.StatusCode())
+			}
+			keep = append(keep, resp)
+			protocol.ReleaseRequest(req)
+		}
+		d.mu.Lock()
+		for _, v := range d.viol {
+			c.Violate("dirty-reuse", "plans %v: %s", seq, v)
+		}
+		d.mu.Unlock()
+		w.Count("switched_exchanges", int64(n))
+		for _, resp := range keep {
+			if resp.StatusCode() == 101 {
+				if hj, err := resp.Hijack(); err == nil {
+					hj.Close()
+				}
+			}
+		}
+		hc.CloseIdleConnections()
+		w.Shape(mon.Hash64("switched", strings.Join(seq, ",")))
+	})
 	// early-close: more concurrent GETs than connections, callers queue for a connection, and
 	// the peer (a balancer without a healthy backend) closes every connection before the first
 	// response byte. None of these connections was ever idle in the pool, so none of the
@@ -1148,6 +1222,13 @@ func work(w *mon.W) {
 		hc.CloseIdleConnections()
 		w.Shape(mon.Hash64("early-close", maxConns, n))
 	})
+}
+
+func idSum(id string) (n int) {
+	for i := 0; i < len(id); i++ {
+		n += int(id[i])
+	}
+	return n
 }
 
 func trunc(s string, n int) string {
